@@ -71,6 +71,15 @@ Theorem C14_relations_route_through_xtypes :
 Proof. exact (conj relation_sites_route_to_xtypes (conj no_go_types_relation_in_engine pair_stack_used_once)). Qed.
 Print Assumptions C14_relations_route_through_xtypes.
 
+(* every case of typeIdentical reads exactly the attributes type identity is defined on for that constructor: an interface's
+   method set (not its embedded interfaces / explicit methods), a named type's declaration and type arguments (not its underlying
+   type), direction, tags, variadicity ... -- nothing is dropped and nothing about the spelling is consulted *)
+Theorem C14_identity_reads_the_identity_attributes :
+  forallb case_ok gen_case_reads = true /\
+  forallb (fun e => existsb (fun c => String.eqb (fst c) (fst e)) gen_case_reads) reads_spec = true.
+Proof. exact case_reads_are_the_identity_attributes. Qed.
+Print Assumptions C14_identity_reads_the_identity_attributes.
+
 (* recorded finding (known_findings.d/C14.json: tparam-cross-universe): completeness fails for type parameters *)
 Theorem C14_tparam_cross_universe_refuted :
   exists a b, wf a = true /\ wf b = true /\ x_spec a b /\ identical_x a b = false.
